@@ -11,6 +11,7 @@ namespace scn {
 using sim::Op;
 using sim::Plan;
 using sim::Prng;
+using sim::mix64;
 
 inline Op op(const char* k, std::initializer_list<int64_t> a = {}, const std::string& s = std::string())
 {
